@@ -48,8 +48,13 @@ def build(mod, design, mode, tie_seed=0, forced=None, ff_perm=None):
     from pymtl3.passes.sim.SimpleSchedulePass import SimpleSchedulePass
     from pymtl3.passes.sim.DynamicSchedulePass import DynamicSchedulePass
     from pymtl3.passes.sim.WrapGreenletPass import WrapGreenletPass
-    top = getattr(mod, design.cls_name(()))()
-    top.elaborate()
+    try:
+        # (a generated design is legal by construction: an elaboration error is recorded like a scheduling
+        #  error - the specification expects the design to be schedulable - and not a crash of the harness)
+        top = getattr(mod, design.cls_name(()))()
+        top.elaborate()
+    except Exception as e:      # noqa: BLE001
+        return None, e
     _random.seed(tie_seed)
     try:
         if mode == "dyn" and ff_perm is None:
@@ -148,7 +153,14 @@ class Recorder:
                 self.unknown = nm
         self.paths = []
         for s in design.sigs:
-            self.paths.append((s.comp, s.arr[0] if s.arr else s.name, s.arr[1] if s.arr else None))
+            ix = s.arr[1] if s.arr else None
+            if s.arr and len(s.arr) > 3:
+                j, t = s.arr[1], []
+                for dd in reversed(s.arr[3]):
+                    t.append(j % dd)
+                    j //= dd
+                ix = tuple(reversed(t))
+            self.paths.append((s.comp, s.arr[0] if s.arr else s.name, ix))
         self.events = []
         self.in_ff = False
 
@@ -166,7 +178,11 @@ class Recorder:
                 o = getattr(o, c)
             v = getattr(o, name)
             if i is not None:
-                v = v[i]
+                if isinstance(i, tuple):        # element of an n-dimensional list
+                    for j in i:
+                        v = v[j]
+                else:
+                    v = v[i]
             out.append(int(v.to_bits()) if hasattr(v, "to_bits") else int(v))
         return out
 
